@@ -160,6 +160,11 @@ GQueue *g_queue_new(void) {
 	return &q->pub;
 }
 void g_queue_free(GQueue *queue) { free(queue); }
+void g_queue_free_full(GQueue *queue, GDestroyNotify free_func) {
+	VQueue *q = (VQueue *)queue;
+	for (guint i = 0; i < VERIF_QCAP; i++) if (i < q->pub.length) free_func(q->it[v_wrap(q->first + i)]);
+	free(queue);
+}
 void verif_queue_tag(GQueue *queue, int lock) { ((VQueue *)queue)->tag = lock; }
 gboolean g_queue_is_empty(GQueue *queue) { TAG_CHECK(((VQueue *)queue)->tag, "queue"); return queue->length == 0; }
 guint g_queue_get_length(GQueue *queue) { TAG_CHECK(((VQueue *)queue)->tag, "queue"); return queue->length; }
